@@ -195,10 +195,16 @@ fn write_chunk(input: &[u8], input_used: &mut usize, w: &mut Writer, max_chunk: 
     // TODO(martin): Redo this to  try and calculate a perfect fit of the
     // input into the output.
 
-    // 5 is the smallest possible overhead
-    let available = w.available().saturating_sub(5);
+    // 5 is the smallest possible overhead: a one digit length, \r\n and a trailing \r\n.
+    let available = w.available();
 
-    let to_write = input.len().min(max_chunk).min(available);
+    let mut to_write = input.len().min(max_chunk).min(available.saturating_sub(5));
+
+    // The length takes more room the larger the chunk is. Shrink the chunk
+    // until it fits the output together with its overhead.
+    while to_write > 0 && to_write + hex_len(to_write) + 4 > available {
+        to_write -= 1;
+    }
 
     // A zero sized chunk is the end marker of the body, never write that here.
     if to_write == 0 {
@@ -222,6 +228,15 @@ fn write_chunk(input: &[u8], input_used: &mut usize, w: &mut Writer, max_chunk: 
 
     // write another chunk?
     success && input.len() > to_write
+}
+
+fn hex_len(mut n: usize) -> usize {
+    let mut len = 1;
+    while n >= 16 {
+        n /= 16;
+        len += 1;
+    }
+    len
 }
 
 #[derive(Clone, Copy, PartialEq, Eq)]
